@@ -30,6 +30,8 @@ type voteSpec struct {
 }
 
 func runC25(c *core.Ctx) {
+	checkDecoderRestoresField(c, "C25.once", pkSigM, "SigInfo", "Status", "NextBool")
+	checkDecoderRestoresField(c, "C25.once", pkVote, "VoteInfo", "Status", "NextBool")
 	for _, sp := range []voteSpec{
 		{pkVote, "CheckVotes", "VoteInfo", "getVoteInfo", "putVoteInfo"},
 		{pkSigM, "CheckSigns", "SigInfo", "getSigInfo", "putSigInfo"},
